@@ -703,6 +703,15 @@ impl GCl {
                 }
                 (RespValue::Integer(n), ds)
             }
+            // since e29f660 an MSET is one SET per pair (each on its key's shard, each shipping its delta)
+            Command::MSet(pairs) => {
+                let mut ds = Vec::new();
+                for (k, v) in pairs {
+                    let (_, d1) = self.hs[i].execute(Command::set(k.clone(), v.clone())).await;
+                    ds.extend(d1);
+                }
+                (RespValue::simple("OK"), ds)
+            }
             _ => {
                 let (r, d) = self.hs[i].execute(c.clone()).await;
                 (r, d.into_iter().collect())
